@@ -806,18 +806,25 @@ def grain_fn(run):
     return grain
 
 
+_STRUCT_INTERN = {}
+
+
 def struct_hasher(run):
+    """structural identity of a term as a small integer (hash-consing: the key of a term is its operator and the identities
+    of its operands, interned process-wide, so shared sub-terms are never expanded and equal structures of different runs
+    get the same identity)"""
     memo = {}
 
     def h(i):
         if i not in memo:
             ex, g, vb, op, a = run.terms[i]
             if op in ("var", "const"):
-                memo[i] = (op, a[0])
+                key = (op, a[0])
             elif op == "app":
-                memo[i] = (op, a[0]) + tuple(h(int(x)) for x in a[1:])
+                key = (op, a[0]) + tuple(h(int(x)) for x in a[1:])
             else:
-                memo[i] = (op,) + tuple(h(int(x)) for x in a)
+                key = (op,) + tuple(h(int(x)) for x in a)
+            memo[i] = _STRUCT_INTERN.setdefault(key, len(_STRUCT_INTERN) + 1)
         return memo[i]
     return h
 
